@@ -36,6 +36,17 @@ pub proof fn lemma_path_len(nodes: Seq<TrieNode>, d: Seq<nat>, vocab: u32, j: in
     }
 }
 
+pub proof fn lemma_depth_le_index(nodes: Seq<TrieNode>, d: Seq<nat>, vocab: u32, j: int)
+    requires trie_wf(nodes, d, vocab), 0 <= j < nodes.len(),
+    ensures d[j] <= j,
+    decreases j
+{
+    if j > 0 {
+        lemma_depth_le_index(nodes, d, vocab, j - 1);
+        assert(step_ok(d, j));
+    }
+}
+
 pub proof fn lemma_desc_path(nodes: Seq<TrieNode>, d: Seq<nat>, vocab: u32, p: int, k: int)
     requires trie_wf(nodes, d, vocab), 0 <= p < nodes.len(), p <= k < p + nsize(nodes[p]),
     ensures path(nodes, d, k).len() == d[k], d[k] >= d[p], path(nodes, d, k).take(d[p] as int) == path(nodes, d, p),
@@ -80,6 +91,13 @@ pub open spec fn tokv(n: TrieNode, vocab: u32) -> u32 { if ntok(n) == NO_TOKEN {
 
 pub open spec fn rel(nodes: Seq<TrieNode>, d: Seq<nat>, off: int, j: int) -> Seq<u8> {
     path(nodes, d, j).skip(d[off] as int)
+}
+
+/// no path below `off` is longer than the recognizer's remaining stack capacity (for StackRecognizer: tokens of at most
+/// STACK_CAPACITY - 1 = 299 bytes; for the parser's own recognizer the capacity is unbounded)
+pub open spec fn d_fits(d: Seq<nat>, off: int, room: int, j: int) -> bool { d[j] - d[off] <= room }
+pub open spec fn depth_fits(nodes: Seq<TrieNode>, d: Seq<nat>, off: int, room: int) -> bool {
+    forall|j: int| off < j < off + nsize(nodes[off]) ==> #[trigger] d_fits(d, off, room, j)
 }
 
 /// token id t is carried by a node j in (off, p) all of whose path bytes below `off` are accepted one after another from s0
@@ -137,7 +155,7 @@ pub proof fn lemma_is_prefix_closed(a: Seq<u8>, b: u8, c: Seq<u8>)
 
 impl TokTrie {
     pub open spec fn vocab(&self) -> u32 { self.info.vocab_size }
-    pub open spec fn wf(&self) -> bool { exists|d: Seq<nat>| trie_wf(self.nodes@, d, self.vocab()) }
+    pub open spec fn wf(&self) -> bool { (exists|d: Seq<nat>| trie_wf(self.nodes@, d, self.vocab())) && self.nodes@.len() <= usize::MAX }
     pub open spec fn depths(&self) -> Seq<nat> { choose|d: Seq<nat>| trie_wf(self.nodes@, d, self.vocab()) }
     pub uninterp spec fn spec_node_offset(&self, n: &TrieNode) -> int;
 
@@ -167,6 +185,7 @@ impl TokTrie {
         old(r).rinv(),
         prefix_closed(old(r)),
         old(r).ok(old(r).stack()),
+        depth_fits(self.nodes@, self.depths(), self.spec_node_offset(n), old(r).cap() - old(r).stack().len()),
         // room for the fake token at index vocab_size (alloc_token_set allocates vocab_size + 1 bits)
         (self.vocab() >> 5) < old(toks).nwords(), old(toks).nwords() * 32 <= usize::MAX,
     ensures
@@ -176,7 +195,7 @@ impl TokTrie {
             || acc(self.nodes@, self.depths(), old(r), old(r).stack(), self.spec_node_offset(n), self.spec_node_offset(n) + nsize(*n), self.vocab(), t)),
         // the recognizer is the same acceptor, and popping next_pop leaves the stack where the walk found it (for the root)
         forall|s: Seq<u8>| final(r).ok(s) == old(r).ok(s),
-        final(r).rinv(),
+        final(r).rinv(), final(r).cap() == old(r).cap(),
         self.spec_node_offset(n) == 0 ==> res.0 <= final(r).stack().len(),
         self.spec_node_offset(n) == 0 ==> final(r).stack().take(final(r).stack().len() - res.0) == old(r).stack(),
         res.1 <= nsize(*n),
@@ -209,7 +228,7 @@ impl TokTrie {
             off < nd.len(), endp == off + nsize(nd[off as int]), endp <= nd.len(), total_nodes == nsize(nd[off as int]),
             nodes@ == nd.take(endp as int),
             off + 1 <= p <= endp, defl_tok == vocab,
-            r.rinv(), r.ok(r.stack()),
+            r.rinv(), r.ok(r.stack()), r.cap() == old(r).cap(), depth_fits(nd, d, off as int, old(r).cap() - s0.len()),
             prefix_closed(r), forall|s: Seq<u8>| r.ok(s) == old(r).ok(s), old(r).ok(s0),
             s0 == old(r).stack(),
             (p < endp || off == 0) ==> next_pop <= r.stack().len(),
@@ -240,6 +259,8 @@ impl TokTrie {
                 assert(s1 == s0 + pp.skip(d[oi] as int));
                 assert(path(nd, d, pi) =~= pp.push(b));
                 assert(s1.push(b) =~= s0 + rel(nd, d, oi, pi));
+                assert(d_fits(d, oi, old(r).cap() - s0.len(), pi));
+                assert(s1.len() == s0.len() + d[pi] - 1 - d[oi]);
             }
 //@ after let tok = n.token_id().unwrap_or(defl_tok);
                 proof {
@@ -380,6 +401,8 @@ impl TokTrie {
     requires
         self.wf(), old(r).fresh(), old(r).rinv(),
         (self.vocab() >> 5) < old(toks).nwords(), old(toks).nwords() * 32 <= usize::MAX,
+        // every path below the start node fits the recognizer's stack (only a restriction for StackRecognizer: 299 bytes)
+        match self.spec_child(start@) { Some(k) => depth_fits(self.nodes@, self.depths(), k, old(r).cap() as int), None => true },
     ensures
         final(toks).size == old(toks).size, final(toks).nwords() == old(toks).nwords(),
         // no id at or above the vocabulary size is ever reported
@@ -429,7 +452,14 @@ impl TokTrie {
     }
 //@ before self.add_bias(&mut fixed, toks, &[]);
     let ghost fixed0 = fixed;
-    proof { assert(fixed0.bytes@ =~= start@); }
+    proof {
+        assert(fixed0.bytes@ =~= start@);
+        axiom_spec_child_empty(self);
+        assert forall|j: int| 0 < j < 0 + nsize(nd[0]) implies #[trigger] d_fits(d, 0, fixed0.cap() as int, j) by {
+            lemma_depth_le_index(nd, d, vocab, j);
+        }
+        assert(depth_fits(nd, d, 0, fixed0.cap() as int));
+    }
 //@ before let n = self.child_at_bytes(self.root(), start);
     let ghost t1 = *toks;
     proof {
@@ -455,6 +485,7 @@ impl TokTrie {
 //@ rewrite R8 :: let mut next_pop = 0; ==> let mut next_pop: usize = 0;
 //@ spec
     requires self.wf(), old(r).fresh(), old(r).rinv(),
+        match self.spec_child(start@) { Some(k) => depth_fits(self.nodes@, self.depths(), k, old(r).cap() as int), None => true },
     ensures
         // true iff some real token strictly below the node of `start` has all its remaining bytes accepted one after another
         res == (match self.spec_child(start@) {
@@ -497,7 +528,7 @@ impl TokTrie {
         invariant
             trie_wf(nd, d, vocab), nd == self.nodes@, vocab == self.vocab(), d == self.depths(),
             off < nd.len(), endp == off + nsize(nd[off as int]), endp <= nd.len(),
-            r.rinv(), r.ok(r.stack()),
+            r.rinv(), r.ok(r.stack()), r.cap() == r1.cap(), depth_fits(nd, d, off as int, r1.cap() - s0.len()),
             prefix_closed(r), forall|s: Seq<u8>| r.ok(s) == r1.ok(s), r1.ok(s0), s0 == r1.stack(),
         ensures
             ok == acc_real(nd, d, &r1, s0, off as int, endp as int),
@@ -521,6 +552,8 @@ impl TokTrie {
                 assert(s1 == s0 + pp.skip(d[oi] as int));
                 assert(path(nd, d, pi) =~= pp.push(b));
                 assert(s1.push(b) =~= s0 + rel(nd, d, oi, pi));
+                assert(d_fits(d, oi, r1.cap() - s0.len(), pi));
+                assert(s1.len() == s0.len() + d[pi] - 1 - d[oi]);
             }
 //@ then_start if n.token_id().is_some()
                     proof {
@@ -616,6 +649,8 @@ impl Recognizer for FixedRecognizer {
     open spec fn started_ok(&self, s: Seq<u8>) -> bool { TokTrie::is_prefix(s, self.bytes@) }
     open spec fn fresh(&self) -> bool { self.bytes_ptr == 0 }
     open spec fn rinv(&self) -> bool { self.bytes_ptr <= self.bytes@.len() }
+    /// FixedRecognizer has no stack array: a push only moves an index that never passes |bytes|
+    open spec fn cap(&self) -> nat { 0x1_0000_0000_0000_0000nat }
 
 //@@ fn toktrie/src/toktree.rs Recognizer@FixedRecognizer::pop_bytes
 //@ end
@@ -650,6 +685,7 @@ impl Recognizer for FixedRecognizer {
 
 pub proof fn axiom_spec_child_empty(t: &TokTrie)
     ensures t.spec_child(Seq::<u8>::empty()) == Some(0int),
+        forall|s: Seq<u8>| s.len() == 0 ==> #[trigger] t.spec_child(s) == Some(0int),
 {
     admit(); // ASSUMED: child_at_bytes(root, []) returns the root (its loop body never runs)
 }
